@@ -655,9 +655,12 @@ Proof.
     unfold detach_server. destruct (get_srv name (c_servers c0)) as [s|]; [|exact H0].
     assert (H1 : IdentG (c0 <| c_servers ::= del_srv name |>)) by (revert H0; apply IdentG_ext; reflexivity).
     destruct (s_parent s) as [p|]; [|exact H1].
-    eapply IdentG_same_core; [|exact H1].
-    eapply same_core_trans; [apply same_core_upd_bkt|]. eapply same_core_trans; [apply propagate_traits_sc|].
-    eapply same_core_trans; [apply bump_affinity_sc|apply adjust_down_sc].
+    eapply IdentG_same_core; [apply unhook_server_sc|exact H1].
+  - (* OMoveServer *)
+    unfold move_server. destruct (get_srv name (c_servers c)) as [s|]; [|exact H].
+    eapply IdentG_same_core; [apply attach_common_sc|].
+    match goal with |- IdentG (c_upd_srv _ _ ?c0) => apply (IdentG_ext c0); [reflexivity|reflexivity|] end.
+    destruct (s_parent s) as [p0|]; [eapply IdentG_same_core; [apply unhook_server_sc|exact H]|exact H].
   - (* OSetState *)
     unfold srv_set_state. destruct (get_srv name (c_servers c)) as [s|]; [|exact H].
     destruct (sstate_eqb (s_state s) st); [exact H|].
